@@ -591,4 +591,532 @@ theorem clean_live (order : AMap Key QVal) (ct : AMap Key Entry) (k : Key) (v : 
       intro e he
       exact hm e (cleanEntry_sub ct kq.1 kq.2 k e he)
 
+/-! ## Packets interleaved INSIDE the scan's map iteration
+
+Visit `j` of the iteration reads the entry `(k, e)` and (for a forward entry) looks its reverse entry
+up in the map `ct_j` as it is at that moment; between visits the map changes arbitrarily.  A queue
+item is then backed by a judgement made on the map of ONE of the visits. -/
+
+/-- a queue item backed by a judgement on the map `ct` of some visit. -/
+def QSoundI (t : Timeouts) (now : Nat) (ct : AMap Key Entry) (kq : Key × QVal) : Prop :=
+  if kq.2.other = dummyKey then
+    ∃ e0, ct.get kq.1 = some e0 ∧ e0.lastSeen = kq.2.ts ∧ Judged t now ct kq.1 e0
+  else
+    ∃ r, ct.get kq.2.other = some r ∧ r.lastSeen = kq.2.revTs ∧
+      (expired t now kq.1.proto r = true ∨ expired t now kq.2.other.proto r = true)
+
+def PSoundI (t : Timeouts) (now : Nat) (hist : List (AMap Key Entry)) (done : List Key) (kp : Key × QVal) : Prop :=
+  if kp.2.other = dummyKey then
+    kp.1 ∈ done ∧ ∃ ct ∈ hist, ∃ e0, ct.get kp.1 = some e0 ∧ e0.typ = .rev ∧ e0.lastSeen = kp.2.ts ∧
+      expired t now kp.1.proto e0 = true
+  else
+    kp.1 ≠ dummyKey ∧ ∃ ct ∈ hist, ∃ r, ct.get kp.1 = some r ∧ r.lastSeen = kp.2.revTs ∧
+      expired t now kp.2.other.proto r = true
+
+structure ScanInvI (t : Timeouts) (now : Nat) (hist : List (AMap Key Entry)) (done : List Key) (sc : ScanSt) : Prop where
+  q : ∀ kq ∈ sc.queue, ∃ ct ∈ hist, QSoundI t now ct kq
+  p : ∀ kp ∈ sc.pend, PSoundI t now hist done kp
+
+theorem PSoundI.mono {t : Timeouts} {now : Nat} {hist : List (AMap Key Entry)} {done : List Key} {kp : Key × QVal}
+    (k : Key) (c : AMap Key Entry) (h : PSoundI t now hist done kp) : PSoundI t now (c :: hist) (k :: done) kp := by
+  unfold PSoundI at *
+  split
+  · rename_i hd; rw [if_pos hd] at h
+    obtain ⟨h1, ct, hc, h2⟩ := h
+    exact ⟨List.mem_cons_of_mem _ h1, ct, List.mem_cons_of_mem _ hc, h2⟩
+  · rename_i hd; rw [if_neg hd] at h
+    obtain ⟨h1, ct, hc, h2⟩ := h
+    exact ⟨h1, ct, List.mem_cons_of_mem _ hc, h2⟩
+
+theorem queueI_set {t : Timeouts} {now : Nat} {hist : List (AMap Key Entry)} {queue : AMap Key QVal} {k : Key} {v : QVal}
+    (c : AMap Key Entry)
+    (hq : ∀ kq ∈ queue, ∃ ct ∈ hist, QSoundI t now ct kq) (hv : QSoundI t now c (k, v)) :
+    ∀ kq ∈ queue.set k v, ∃ ct ∈ c :: hist, QSoundI t now ct kq := by
+  intro kq hm
+  rcases AMap.mem_set hm with h | h
+  · rw [h]; exact ⟨c, List.mem_cons_self .., hv⟩
+  · obtain ⟨ct, hc, hs⟩ := hq kq h.1
+    exact ⟨ct, List.mem_cons_of_mem _ hc, hs⟩
+
+theorem queueI_keep {t : Timeouts} {now : Nat} {hist : List (AMap Key Entry)} {queue : AMap Key QVal}
+    (c : AMap Key Entry) (hq : ∀ kq ∈ queue, ∃ ct ∈ hist, QSoundI t now ct kq) :
+    ∀ kq ∈ queue, ∃ ct ∈ c :: hist, QSoundI t now ct kq := by
+  intro kq hm
+  obtain ⟨ct, hc, hs⟩ := hq kq hm
+  exact ⟨ct, List.mem_cons_of_mem _ hc, hs⟩
+
+/-- one visit, on the map `ct` as it is at that moment. -/
+theorem scanEntry_invI {t : Timeouts} {now : Nat} {hist : List (AMap Key Entry)} {done : List Key} {sc : ScanSt}
+    (inv : ScanInvI t now hist done sc) (ct : AMap Key Entry) (k : Key) (e : Entry) (hk : ct.get k = some e)
+    (hnew : k ∉ done) (hkd : k ≠ dummyKey) (hrd : e.typ = .fwd → e.revKey ≠ dummyKey) :
+    ScanInvI t now (ct :: hist) (k :: done) (scanEntry t now ct sc k e) := by
+  have mono : ∀ kp ∈ sc.pend, PSoundI t now (ct :: hist) (k :: done) kp := fun kp h => (inv.p kp h).mono k ct
+  have hq0 := queueI_keep ct inv.q
+  cases hdel' : (check t now ct k e).1 with
+  | false => rw [scanEntry_keep hdel']; exact ⟨hq0, mono⟩
+  | true =>
+    cases htyp : e.typ with
+    | normal =>
+      rw [scanEntry_normal hdel' htyp]
+      refine ⟨queueI_set ct inv.q ?_, mono⟩
+      unfold QSoundI
+      rw [if_pos rfl]
+      refine ⟨e, hk, ?_, ?_⟩
+      · simp [check, htyp]
+      · unfold Judged; simp only [htyp]
+        simpa [check, htyp] using hdel'
+    | rev =>
+      rw [scanEntry_nat hdel' (by simp [htyp])]
+      simp only [handleNAT, htyp]
+      have hexp : expired t now k.proto e = true := by simpa [check, htyp] using hdel'
+      cases hpk : sc.pend.get k with
+      | none =>
+        simp only []
+        refine ⟨hq0, ?_⟩
+        intro kp hm
+        rcases AMap.mem_set hm with h | h
+        · rw [h]; unfold PSoundI; rw [if_pos rfl]
+          exact ⟨List.mem_cons_self .., ct, List.mem_cons_self .., e, hk, htyp, rfl, hexp⟩
+        · exact mono kp h.1
+      | some pv =>
+        simp only []
+        have hps := inv.p (k, pv) (AMap.mem_of_get hpk)
+        unfold PSoundI at hps
+        by_cases hpd : pv.other = dummyKey
+        · rw [if_pos hpd] at hps
+          exact absurd hps.1 hnew
+        · refine ⟨queueI_set ct inv.q ?_, fun kp hm => mono kp (AMap.mem_del hm).1⟩
+          unfold QSoundI
+          rw [if_neg hkd]
+          exact ⟨e, hk, by simp [check, htyp], Or.inr hexp⟩
+    | fwd =>
+      rw [scanEntry_nat hdel' (by simp [htyp])]
+      simp only [handleNAT, htyp]
+      have hrk := hrd htyp
+      have hchk : (ct.get e.revKey = none ∧ (check t now ct k e).2 = e.lastSeen) ∨
+          ∃ r, ct.get e.revKey = some r ∧ expired t now k.proto r = true ∧ (check t now ct k e).2 = r.lastSeen := by
+        unfold check at hdel' ⊢
+        simp only [htyp] at hdel' ⊢
+        cases hr : ct.get e.revKey with
+        | none => left; simp
+        | some r =>
+          right
+          simp only [hr] at hdel' ⊢
+          by_cases hx : expired t now k.proto r = true
+          · exact ⟨r, rfl, hx, by simp [hx]⟩
+          · simp [hx] at hdel'
+      split
+      · rename_i hts
+        refine ⟨queueI_set ct inv.q ?_, mono⟩
+        unfold QSoundI
+        rw [if_pos rfl]
+        refine ⟨e, hk, rfl, ?_⟩
+        unfold Judged; simp only [htyp]
+        rcases hchk with ⟨hn, _⟩ | ⟨r, hr, hx, hl⟩
+        · exact Or.inl hn
+        · exact Or.inr ⟨r, hr, hx, by omega⟩
+      · rename_i hts
+        have hex : ∃ r, ct.get e.revKey = some r ∧ expired t now k.proto r = true ∧ (check t now ct k e).2 = r.lastSeen := by
+          rcases hchk with ⟨_, hl⟩ | h
+          · exact absurd hl.symm hts
+          · exact h
+        obtain ⟨r, hr, hx, hl⟩ := hex
+        cases hpk : sc.pend.get e.revKey with
+        | none =>
+          simp only []
+          refine ⟨hq0, ?_⟩
+          intro kp hm
+          rcases AMap.mem_set hm with h | h
+          · rw [h]; unfold PSoundI; rw [if_neg hkd]
+            exact ⟨hrk, ct, List.mem_cons_self .., r, hr, hl.symm, hx⟩
+          · exact mono kp h.1
+        | some pv =>
+          simp only []
+          refine ⟨queueI_set ct inv.q ?_, fun kp hm => mono kp (AMap.mem_del hm).1⟩
+          unfold QSoundI
+          rw [if_neg hrk]
+          exact ⟨r, hr, hl.symm, Or.inl hx⟩
+
+/-- the visits of one scan: the map as it was at the visit, and the entry read. -/
+abbrev Visit := AMap Key Entry × Key × Entry
+
+/-- `Scan` with the map changing between the visits of its iteration. -/
+def scanI (t : Timeouts) (now : Nat) (visits : List Visit) : AMap Key QVal :=
+  scanEnd (visits.foldl (fun sc v => scanEntry t now v.1 sc v.2.1 v.2.2) ⟨[], []⟩)
+
+structure VisitsOK (visits : List Visit) : Prop where
+  mem : ∀ v ∈ visits, v.1.get v.2.1 = some v.2.2
+  nodup : (visits.map (·.2.1)).Nodup
+  keys : ∀ v ∈ visits, v.2.1 ≠ dummyKey
+  revs : ∀ v ∈ visits, v.2.2.typ = .fwd → v.2.2.revKey ≠ dummyKey
+
+theorem scanI_loop_inv {t : Timeouts} {now : Nat} (visits : List Visit) (hist : List (AMap Key Entry))
+    (done : List Key) (sc : ScanSt) (inv : ScanInvI t now hist done sc) (ok : VisitsOK visits)
+    (hdisj : ∀ v ∈ visits, v.2.1 ∉ done) :
+    ∃ done', ScanInvI t now ((visits.map (·.1)).reverse ++ hist) done'
+      (visits.foldl (fun sc v => scanEntry t now v.1 sc v.2.1 v.2.2) sc) := by
+  induction visits generalizing hist done sc with
+  | nil => exact ⟨done, by simpa using inv⟩
+  | cons v rest ih =>
+    simp only [List.foldl_cons, List.map_cons, List.reverse_cons, List.append_assoc, List.singleton_append]
+    have h1 := scanEntry_invI inv v.1 v.2.1 v.2.2 (ok.mem v (List.mem_cons_self ..)) (hdisj v (List.mem_cons_self ..))
+      (ok.keys v (List.mem_cons_self ..)) (ok.revs v (List.mem_cons_self ..))
+    have nd := ok.nodup
+    simp only [List.map_cons, List.nodup_cons] at nd
+    refine ih (v.1 :: hist) (v.2.1 :: done) _ h1
+      ⟨fun x hx => ok.mem x (List.mem_cons_of_mem _ hx), nd.2,
+       fun x hx => ok.keys x (List.mem_cons_of_mem _ hx), fun x hx => ok.revs x (List.mem_cons_of_mem _ hx)⟩ ?_
+    intro x hx
+    simp only [List.mem_cons, not_or]
+    refine ⟨?_, hdisj x (List.mem_cons_of_mem _ hx)⟩
+    intro e; exact nd.1 (List.mem_map.2 ⟨x, hx, e⟩)
+
+theorem scanEnd_soundI {t : Timeouts} {now : Nat} {hist : List (AMap Key Entry)} {done : List Key} {sc : ScanSt}
+    (inv : ScanInvI t now hist done sc) : ∀ kq ∈ scanEnd sc, ∃ ct ∈ hist, QSoundI t now ct kq := by
+  unfold scanEnd
+  have : ∀ (pend : AMap Key QVal) (queue : AMap Key QVal),
+      (∀ kp ∈ pend, PSoundI t now hist done kp) → (∀ kq ∈ queue, ∃ ct ∈ hist, QSoundI t now ct kq) →
+      ∀ kq ∈ pend.foldl (fun q kv =>
+        if kv.2.other ≠ dummyKey then q.set kv.2.other ⟨kv.1, kv.2.ts, kv.2.revTs⟩
+        else q.set kv.1 ⟨kv.2.other, kv.2.ts, kv.2.revTs⟩) queue, ∃ ct ∈ hist, QSoundI t now ct kq := by
+    intro pend
+    induction pend with
+    | nil => intro queue _ hq; exact hq
+    | cons kp rest ih =>
+      intro queue hp hq
+      simp only [List.foldl_cons]
+      apply ih _ (fun x hx => hp x (List.mem_cons_of_mem _ hx))
+      have hps := hp kp (List.mem_cons_self ..)
+      unfold PSoundI at hps
+      intro kq hm
+      split at hm
+      · rename_i hnd
+        rw [if_neg hnd] at hps
+        obtain ⟨hkd, ct, hc, r, hr, hrl, hre⟩ := hps
+        rcases AMap.mem_set hm with h | h
+        · refine ⟨ct, hc, ?_⟩
+          rw [h]; unfold QSoundI; rw [if_neg hkd]
+          exact ⟨r, hr, hrl, Or.inl hre⟩
+        · exact hq kq h.1
+      · rename_i hd
+        have hd' : kp.2.other = dummyKey := by simpa using hd
+        rw [if_pos hd'] at hps
+        obtain ⟨_, ct, hc, e0, he, het, hel, hex⟩ := hps
+        rcases AMap.mem_set hm with h | h
+        · refine ⟨ct, hc, ?_⟩
+          rw [h]; unfold QSoundI
+          simp only [hd', if_true]
+          refine ⟨e0, he, hel, ?_⟩
+          unfold Judged; simp only [het]; exact hex
+        · exact hq kq h.1
+  exact this sc.pend sc.queue inv.p inv.q
+
+/-- every queue item of an interleaved scan is backed by a judgement on the map of one of its visits. -/
+theorem scanI_queue_sound (t : Timeouts) (now : Nat) (visits : List Visit) (ok : VisitsOK visits) :
+    ∀ kq ∈ scanI t now visits, ∃ v ∈ visits, QSoundI t now v.1 kq := by
+  unfold scanI
+  obtain ⟨done, inv⟩ := scanI_loop_inv (t := t) (now := now) visits [] [] ⟨[], []⟩
+    ⟨fun _ h => by simp at h, fun _ h => by simp at h⟩ ok (fun _ _ => by simp)
+  intro kq hm
+  obtain ⟨ct, hc, hs⟩ := scanEnd_soundI inv kq hm
+  simp only [List.append_nil, List.mem_reverse, List.mem_map] at hc
+  obtain ⟨v, hv, rfl⟩ := hc
+  exact ⟨v, hv, hs⟩
+
+/-! ## Liveness of a NAT pair -/
+
+theorem AMap.keys_del {K V : Type} [DecidableEq K] (m : AMap K V) (k : K) (h : (m.map (·.1)).Nodup) :
+    ((AMap.del m k).map (·.1)).Nodup := by
+  unfold AMap.del
+  exact (List.Nodup.sublist ((List.filter_sublist (l := m)).map _) h)
+
+theorem AMap.keys_set {K V : Type} [DecidableEq K] (m : AMap K V) (k : K) (v : V) (h : (m.map (·.1)).Nodup) :
+    ((AMap.set m k v).map (·.1)).Nodup := by
+  unfold AMap.set
+  simp only [List.map_cons, List.nodup_cons]
+  refine ⟨?_, AMap.keys_del m k h⟩
+  intro hm
+  obtain ⟨p, hp, he⟩ := List.mem_map.1 hm
+  exact (AMap.mem_del hp).2 he
+
+theorem AMap.get_of_mem_nodup {K V : Type} [DecidableEq K] {m : AMap K V} {k : K} {v : V}
+    (h : (m.map (·.1)).Nodup) (hm : (k, v) ∈ m) : m.get k = some v := by
+  induction m with
+  | nil => simp at hm
+  | cons p rest ih =>
+    obtain ⟨k', v'⟩ := p
+    simp only [List.map_cons, List.nodup_cons] at h
+    rcases List.mem_cons.1 hm with e | hm'
+    · cases e; simp [AMap.get]
+    · have : k' ≠ k := fun e => h.1 (e ▸ List.mem_map_of_mem (f := fun x : K × V => x.1) hm')
+      simp [AMap.get, this, ih h.2 hm']
+
+theorem AMap.get_set_ne' {K V : Type} [DecidableEq K] (m : AMap K V) {k k' : K} (v : V) (h : k' ≠ k) :
+    (AMap.set m k v).get k' = m.get k' := by
+  rw [AMap.get_set]; simp [h]
+
+/-- the pair under consideration. -/
+structure Pair (t : Timeouts) (now : Nat) (ct : AMap Key Entry) (items : List (Key × Entry))
+    (kF kR : Key) (f r : Entry) : Prop where
+  hf : ct.get kF = some f
+  hr : ct.get kR = some r
+  tf : f.typ = .fwd
+  tr : r.typ = .rev
+  rk : f.revKey = kR
+  ef : expired t now kF.proto r = true
+  er : expired t now kR.proto r = true
+  /-- no other forward entry points at the same reverse entry -/
+  uniq : ∀ kv ∈ items, kv.2.typ = .fwd → kv.2.revKey = kR → kv.1 = kF
+
+/-- what the scanner state holds for the pair, depending on which of its two entries were visited. -/
+structure PairInv (kF kR : Key) (f r : Entry) (done : List Key) (sc : ScanSt) : Prop where
+  pn : (sc.pend.map (·.1)).Nodup
+  pend : sc.pend.get kR =
+    if f.lastSeen = r.lastSeen then (if kR ∈ done then some ⟨dummyKey, r.lastSeen, 0⟩ else none)
+    else if kF ∈ done then (if kR ∈ done then none else some ⟨kF, f.lastSeen, r.lastSeen⟩)
+    else (if kR ∈ done then some ⟨dummyKey, r.lastSeen, 0⟩ else none)
+  qeq : f.lastSeen = r.lastSeen → kF ∈ done → (kF, (⟨dummyKey, f.lastSeen, f.lastSeen⟩ : QVal)) ∈ sc.queue
+  qne : f.lastSeen ≠ r.lastSeen → kF ∈ done → kR ∈ done → (kF, (⟨kR, f.lastSeen, r.lastSeen⟩ : QVal)) ∈ sc.queue
+
+theorem scanEntry_pn {t : Timeouts} {now : Nat} {ct : AMap Key Entry} {sc : ScanSt} (k : Key) (e : Entry)
+    (h : (sc.pend.map (·.1)).Nodup) : ((scanEntry t now ct sc k e).pend.map (·.1)).Nodup := by
+  cases hdel : (check t now ct k e).1 with
+  | false => rw [scanEntry_keep hdel]; exact h
+  | true =>
+    cases htyp : e.typ with
+    | normal => rw [scanEntry_normal hdel htyp]; exact h
+    | rev =>
+      rw [scanEntry_nat hdel (by simp [htyp])]
+      simp only [handleNAT, htyp]
+      cases sc.pend.get k with
+      | none => exact AMap.keys_set _ _ _ h
+      | some pv => exact AMap.keys_del _ _ h
+    | fwd =>
+      rw [scanEntry_nat hdel (by simp [htyp])]
+      simp only [handleNAT, htyp]
+      split
+      · exact h
+      · cases sc.pend.get e.revKey with
+        | none => exact AMap.keys_set _ _ _ h
+        | some pv => exact AMap.keys_del _ _ h
+
+/-- visiting any other entry leaves the pair's pending record and its queued item alone. -/
+theorem other_visit {t : Timeouts} {now : Nat} {ct : AMap Key Entry} {items : List (Key × Entry)} {kF kR : Key} {f r : Entry}
+    (pr : Pair t now ct items kF kR f r) {done : List Key} {sc : ScanSt} (inv : ScanInv t now ct done sc)
+    (k : Key) (e : Entry) (hmem : (k, e) ∈ items) (hnew : k ∉ done) (h1 : k ≠ kF) (h2 : k ≠ kR) :
+    (scanEntry t now ct sc k e).pend.get kR = sc.pend.get kR ∧
+    ∀ v, (kF, v) ∈ sc.queue → (kF, v) ∈ (scanEntry t now ct sc k e).queue := by
+  have hne : ∀ v : QVal, (kF, v).1 ≠ k := fun v h => h1 h.symm
+  cases hdel : (check t now ct k e).1 with
+  | false => rw [scanEntry_keep hdel]; exact ⟨rfl, fun v h => h⟩
+  | true =>
+    cases htyp : e.typ with
+    | normal => rw [scanEntry_normal hdel htyp]; exact ⟨rfl, fun v h => AMap.mem_set_of_ne _ h (hne v)⟩
+    | rev =>
+      rw [scanEntry_nat hdel (by simp [htyp])]
+      simp only [handleNAT, htyp]
+      cases hpk : sc.pend.get k with
+      | none => exact ⟨by simp only []; exact AMap.get_set_ne' _ _ (fun e => h2 e.symm), fun v h => h⟩
+      | some pv =>
+        refine ⟨by simp only []; exact AMap.get_del_ne _ (fun e => h2 e.symm), fun v h => ?_⟩
+        simp only []
+        apply AMap.mem_set_of_ne _ h
+        have hps := inv.p (k, pv) (AMap.mem_of_get hpk)
+        unfold PSound at hps
+        by_cases hpd : pv.other = dummyKey
+        · rw [if_pos hpd] at hps; exact absurd hps.1 hnew
+        · rw [if_neg hpd] at hps
+          obtain ⟨_, f', r', hf', _, hfr', _⟩ := hps
+          intro he; simp only at he
+          rw [← he, pr.hf] at hf'; cases hf'
+          exact h2 (by have := hfr'; simp only at this; rw [← this, pr.rk])
+    | fwd =>
+      rw [scanEntry_nat hdel (by simp [htyp])]
+      simp only [handleNAT, htyp]
+      have hrk : e.revKey ≠ kR := fun he => h1 (pr.uniq (k, e) hmem htyp he)
+      split
+      · exact ⟨rfl, fun v h => AMap.mem_set_of_ne _ h (hne v)⟩
+      · cases hpk : sc.pend.get e.revKey with
+        | none => exact ⟨by simp only []; exact AMap.get_set_ne' _ _ (fun e' => hrk e'.symm), fun v h => h⟩
+        | some pv =>
+          exact ⟨by simp only []; exact AMap.get_del_ne _ (fun e' => hrk e'.symm), fun v h => AMap.mem_set_of_ne _ h (hne v)⟩
+
+theorem mem_cons_ne {k x : Key} {done : List Key} (h : x ≠ k) : x ∈ k :: done ↔ x ∈ done := by
+  simp [List.mem_cons, h]
+
+theorem pair_visit {t : Timeouts} {now : Nat} {ct : AMap Key Entry} {items : List (Key × Entry)} {kF kR : Key} {f r : Entry}
+    (pr : Pair t now ct items kF kR f r) {done : List Key} {sc : ScanSt} (inv : ScanInv t now ct done sc)
+    (pi : PairInv kF kR f r done sc) (k : Key) (e : Entry) (hk : ct.get k = some e) (hmem : (k, e) ∈ items)
+    (hnew : k ∉ done) : PairInv kF kR f r (k :: done) (scanEntry t now ct sc k e) := by
+  have hFR : kF ≠ kR := by
+    intro h; have := pr.hf; rw [h, pr.hr] at this; cases this
+    have := pr.tf; rw [pr.tr] at this; cases this
+  by_cases hkF : k = kF
+  · -- the forward entry is visited
+    subst hkF
+    have he : e = f := by rw [pr.hf] at hk; cases hk; rfl
+    rw [he]
+    have hRk : kR ≠ k := fun h => hFR h.symm
+    have hc1 : (check t now ct k f).1 = true := by simp [check, pr.tf, pr.rk, pr.hr, pr.ef]
+    have hc2 : (check t now ct k f).2 = r.lastSeen := by simp [check, pr.tf, pr.rk, pr.hr, pr.ef]
+    have hpend := pi.pend
+    simp only [hnew, if_false] at hpend
+    rw [scanEntry_nat hc1 (by simp [pr.tf])]
+    simp only [handleNAT, pr.tf, hc2, pr.rk]
+    by_cases heq : f.lastSeen = r.lastSeen
+    · simp only [heq, if_true]
+      refine ⟨pi.pn, ?_, ?_, fun h => absurd heq h⟩
+      · simp only [heq, if_true, mem_cons_ne hRk] at hpend ⊢; exact hpend
+      · intro _ _; rw [← heq]; exact AMap.mem_set_self _ _ _
+    · simp only [heq, if_false] at hpend ⊢
+      by_cases hR : kR ∈ done
+      · simp only [hR, if_true] at hpend
+        simp only [hpend]
+        refine ⟨AMap.keys_del _ _ pi.pn, ?_, fun h => absurd h heq, fun _ _ _ => AMap.mem_set_self _ _ _⟩
+        simp [heq, hR, AMap.get_del_self]
+      · simp only [hR, if_false] at hpend
+        simp only [hpend]
+        refine ⟨AMap.keys_set _ _ _ pi.pn, ?_, fun h => absurd h heq, fun _ _ h => absurd ((mem_cons_ne hRk).1 h) hR⟩
+        simp [heq, hR, mem_cons_ne hRk, AMap.get_set]
+  · by_cases hkR : k = kR
+    · -- the reverse entry is visited
+      subst hkR
+      have he : e = r := by rw [pr.hr] at hk; cases hk; rfl
+      rw [he]
+      have hFk : kF ≠ k := hFR
+      have hc1 : (check t now ct k r).1 = true := by simp [check, pr.tr, pr.er]
+      have hc2 : (check t now ct k r).2 = r.lastSeen := by simp [check, pr.tr]
+      have hpend := pi.pend
+      simp only [hnew, if_false] at hpend
+      rw [scanEntry_nat hc1 (by simp [pr.tr])]
+      simp only [handleNAT, pr.tr, hc2]
+      by_cases heq : f.lastSeen = r.lastSeen
+      · simp only [heq, if_true] at hpend
+        simp only [hpend]
+        refine ⟨AMap.keys_set _ _ _ pi.pn, ?_, ?_, fun h => absurd heq h⟩
+        · simp [heq, AMap.get_set]
+        · intro h hm; exact pi.qeq h ((mem_cons_ne hFk).1 hm)
+      · simp only [heq, if_false] at hpend
+        by_cases hF : kF ∈ done
+        · simp only [hF, if_true] at hpend
+          simp only [hpend]
+          refine ⟨AMap.keys_del _ _ pi.pn, ?_, fun h => absurd h heq, fun _ _ _ => AMap.mem_set_self _ _ _⟩
+          simp [heq, hF, mem_cons_ne hFk, AMap.get_del_self]
+        · simp only [hF, if_false] at hpend
+          simp only [hpend]
+          refine ⟨AMap.keys_set _ _ _ pi.pn, ?_, fun h => absurd h heq, fun _ h _ => absurd ((mem_cons_ne hFk).1 h) hF⟩
+          simp [heq, hF, mem_cons_ne hFk, AMap.get_set]
+    · -- some other entry is visited
+      obtain ⟨hp, hq⟩ := other_visit pr inv k e hmem hnew hkF hkR
+      have m1 : kF ∈ k :: done ↔ kF ∈ done := mem_cons_ne (fun h => hkF h.symm)
+      have m2 : kR ∈ k :: done ↔ kR ∈ done := mem_cons_ne (fun h => hkR h.symm)
+      refine ⟨scanEntry_pn k e pi.pn, ?_, ?_, ?_⟩
+      · rw [hp, pi.pend]; simp only [m1, m2]
+      · intro h hm; exact hq _ (pi.qeq h (m1.1 hm))
+      · intro h hm1 hm2; exact hq _ (pi.qne h (m1.1 hm1) (m2.1 hm2))
+
+theorem pair_loop {t : Timeouts} {now : Nat} {ct : AMap Key Entry} {all : List (Key × Entry)} {kF kR : Key} {f r : Entry}
+    (pr : Pair t now ct all kF kR f r) (items : List (Key × Entry)) (hsub : ∀ kv ∈ items, kv ∈ all)
+    (done : List Key) (sc : ScanSt) (inv : ScanInv t now ct done sc) (pi : PairInv kF kR f r done sc)
+    (ok : ItemsOK ct items) (hdisj : ∀ kv ∈ items, kv.1 ∉ done) :
+    ∃ done', ScanInv t now ct done' (items.foldl (fun sc kv => scanEntry t now ct sc kv.1 kv.2) sc) ∧
+      PairInv kF kR f r done' (items.foldl (fun sc kv => scanEntry t now ct sc kv.1 kv.2) sc) ∧
+      (∀ kv ∈ items, kv.1 ∈ done') ∧ (∀ k ∈ done, k ∈ done') := by
+  induction items generalizing done sc with
+  | nil => exact ⟨done, inv, pi, fun _ h => by simp at h, fun _ h => h⟩
+  | cons kv rest ih =>
+    simp only [List.foldl_cons]
+    have hm := ok.mem kv (List.mem_cons_self ..)
+    have hn := hdisj kv (List.mem_cons_self ..)
+    have h1 := scanEntry_inv inv kv.1 kv.2 hm hn (ok.keys kv (List.mem_cons_self ..)) (ok.revs kv (List.mem_cons_self ..))
+    have p1 := pair_visit pr inv pi kv.1 kv.2 hm (hsub kv (List.mem_cons_self ..)) hn
+    have nd := ok.nodup
+    simp only [List.map_cons, List.nodup_cons] at nd
+    obtain ⟨done', i2, p2, m2, d2⟩ := ih (fun x hx => hsub x (List.mem_cons_of_mem _ hx)) (kv.1 :: done) _ h1 p1
+      ⟨fun x hx => ok.mem x (List.mem_cons_of_mem _ hx), nd.2,
+       fun x hx => ok.keys x (List.mem_cons_of_mem _ hx), fun x hx => ok.revs x (List.mem_cons_of_mem _ hx)⟩
+      (by
+        intro x hx
+        simp only [List.mem_cons, not_or]
+        refine ⟨?_, hdisj x (List.mem_cons_of_mem _ hx)⟩
+        intro e; exact nd.1 (List.mem_map.2 ⟨x, hx, e⟩))
+    refine ⟨done', i2, p2, ?_, fun k hk => d2 k (List.mem_cons_of_mem _ hk)⟩
+    intro x hx
+    rcases List.mem_cons.1 hx with rfl | hx
+    · exact d2 _ (List.mem_cons_self ..)
+    · exact m2 x hx
+
+def endKey (kp : Key × QVal) : Key := if kp.2.other ≠ dummyKey then kp.2.other else kp.1
+def endVal (kp : Key × QVal) : QVal :=
+  if kp.2.other ≠ dummyKey then ⟨kp.1, kp.2.ts, kp.2.revTs⟩ else ⟨kp.2.other, kp.2.ts, kp.2.revTs⟩
+
+theorem scanEnd_eq (sc : ScanSt) : scanEnd sc = sc.pend.foldl (fun q kp => q.set (endKey kp) (endVal kp)) sc.queue := by
+  unfold scanEnd endKey endVal
+  congr 1
+  funext q kp
+  split <;> rfl
+
+theorem endFold_keep (P : QVal → Prop) (key : Key) (pend : AMap Key QVal)
+    (hstep : ∀ kp ∈ pend, endKey kp = key → P (endVal kp)) (q : AMap Key QVal)
+    (h : ∃ v, (key, v) ∈ q ∧ P v) :
+    ∃ v, (key, v) ∈ pend.foldl (fun q kp => q.set (endKey kp) (endVal kp)) q ∧ P v := by
+  induction pend generalizing q with
+  | nil => exact h
+  | cons kp rest ih =>
+    simp only [List.foldl_cons]
+    apply ih (fun x hx => hstep x (List.mem_cons_of_mem _ hx))
+    by_cases hk : endKey kp = key
+    · exact ⟨endVal kp, hk ▸ AMap.mem_set_self _ _ _, hstep kp (List.mem_cons_self ..) hk⟩
+    · obtain ⟨v, hm, hp⟩ := h
+      exact ⟨v, AMap.mem_set_of_ne _ hm (fun e => hk e.symm), hp⟩
+
+theorem endFold_create (P : QVal → Prop) (key : Key) (pend : AMap Key QVal)
+    (hstep : ∀ kp ∈ pend, endKey kp = key → P (endVal kp)) (q : AMap Key QVal)
+    (kp0 : Key × QVal) (h0 : kp0 ∈ pend) (hk0 : endKey kp0 = key) :
+    ∃ v, (key, v) ∈ pend.foldl (fun q kp => q.set (endKey kp) (endVal kp)) q ∧ P v := by
+  induction pend generalizing q with
+  | nil => simp at h0
+  | cons kp rest ih =>
+    simp only [List.foldl_cons]
+    rcases List.mem_cons.1 h0 with rfl | h0'
+    · exact endFold_keep P key rest (fun x hx => hstep x (List.mem_cons_of_mem _ hx)) _
+        ⟨endVal kp0, hk0 ▸ AMap.mem_set_self _ _ _, hstep kp0 (List.mem_cons_self ..) hk0⟩
+    · exact ih (fun x hx => hstep x (List.mem_cons_of_mem _ hx)) _ h0'
+
+/-- the cleaner removes the reverse entry of a queued pair whose time stamp still matches. -/
+theorem clean_live_pair (order : AMap Key QVal) (ct : AMap Key Entry) (kF kR : Key) (tsF tsR : Nat)
+    (hv : (kF, (⟨kR, tsF, tsR⟩ : QVal)) ∈ order) (hp : kR.proto ≠ 0)
+    (hF : ∀ e, ct.get kF = some e → e.revKey = kR)
+    (hR : ∀ e, ct.get kR = some e → e.lastSeen = tsR) : (clean ct order).get kR = none := by
+  induction order generalizing ct with
+  | nil => simp at hv
+  | cons kq rest ih =>
+    simp only [clean, List.foldl_cons]
+    have gone : ∀ ct1 : AMap Key Entry, ct1.get kR = none → (rest.foldl (fun ct kq => cleanEntry ct kq.1 kq.2) ct1).get kR = none := by
+      intro ct1 h1
+      cases h2 : (rest.foldl (fun ct kq => cleanEntry ct kq.1 kq.2) ct1).get kR with
+      | none => rfl
+      | some e2 => have := clean_sub rest ct1 kR e2 h2; rw [h1] at this; cases this
+    rcases List.mem_cons.1 hv with h | h
+    · subst h
+      apply gone
+      have hmis : fwdMismatch ct kF kR = false := by
+        unfold fwdMismatch
+        cases hk : ct.get kF with
+        | none => rfl
+        | some e => simp [hF e hk]
+      unfold cleanEntry
+      simp only [hp, if_false, hmis, Bool.false_eq_true]
+      cases hk : ct.get kR with
+      | none => simp [hk]
+      | some e =>
+        simp only [hR e hk, if_true]
+        rw [AMap.get_del]
+        split
+        · rfl
+        · exact AMap.get_del_self _ _
+    · apply ih _ h
+      · intro e he; exact hF e (cleanEntry_sub ct kq.1 kq.2 kF e he)
+      · intro e he; exact hR e (cleanEntry_sub ct kq.1 kq.2 kR e he)
+
 end CalicoVerif.C14
